@@ -148,6 +148,24 @@ def build_unit(u, scr, workdir, tier, trace=False, common_replace=()):
     if tier == 'thorough':
         cap = max(cap, u.get('timeout_thorough', 900))
     entry = u['entry']
+    # mechanical extraction steps (e.g. assembly -> C over a machine model),
+    # redone on every run from the tree under verification; a failure of the
+    # extractor (unknown instruction ...) leaves the unit UNDECIDED
+    for g in u.get('gen', []):
+        gdir = os.path.join(workdir, name + '.gen')
+        os.makedirs(gdir, exist_ok=True)
+        gcmd = ['python3', os.path.join(VERIF, g['tool']),
+                os.path.join(scr, g['input']), '-I',
+                os.path.join(scr, 'src/include'), '-o',
+                os.path.join(gdir, g['output'])]
+        rc, out, err, s = sh(gcmd, 120)
+        r.cmds.append(' '.join(gcmd))
+        if rc != 0:
+            r.reason = 'extraction failed (%s): %s' % (g['tool'],
+                                                       (err or out)[-800:])
+            return r
+        r.gen_log = getattr(r, 'gen_log', '') + out.strip()
+        incs.append('-I' + gdir)
     cmd = ['goto-cc'] + incs + defs + ['--function', entry, src, '-o', gb]
     rc, out, err, s = sh(cmd, 120)
     r.secs['goto-cc'] = s
